@@ -151,7 +151,7 @@ class Faults:
 def make_class(spec):
     from frappy.core import Module
     from frappy.persistent import PersistentMixin, PersistentParam
-    attrs = {'writes': []}
+    attrs = {'writes': [], 'hw_refuses': False}
     for p in spec['params']:
         if p.get('limit_of'):
             from frappy.persistent import PersistentLimit
@@ -161,6 +161,9 @@ def make_class(spec):
                                            persistent=p['persistent'], readonly=bool(p.get('readonly')))
         if p.get('write') and not p.get('readonly'):
             def wfunc(self, value, pname=p['name']):
+                if self.hw_refuses:
+                    from frappy.errors import HardwareError
+                    raise HardwareError('hardware not ready')
                 self.writes.append((pname, rm.canon(value)))
                 return value
             wfunc.__name__ = 'write_' + p['name']
@@ -299,6 +302,34 @@ def _check_module(ctx, case, workdir):
     else:
         ctx.ok('file-holds-current-values')
     final_values = snapshot_values(m, spec)
+    # ---- (3b) reload at run time: after a power cycle of the hardware the driver sees the power-up values (here: the defaults,
+    # not saved, as documented) and calls loadParameters() - also while the hardware does not accept writes yet.
+    # every persistent parameter is back at the stored value, and the stored snapshot survives the next save
+    for refuses in (False, True):
+        ctx.ev()
+        try:
+            mr = new_module(cls, spec, workdir, None)
+            mr.writeInitParams()
+            for p_ in spec['params']:
+                pobj = mr.parameters[p_['name']]
+                if not p_.get('limit_of'):
+                    pobj.value = pobj.datatype(p_['default'])      # what the driver found in the hardware (no callbacks, no save)
+            mr.hw_refuses = refuses
+            mr.loadParameters()
+            mr.hw_refuses = False
+            lost = [p_['name'] for p_ in spec['params'] if not p_.get('limit_of') and rm.canon(getattr(mr, p_['name'])) != final_values[p_['name']]]
+            mr.saveParameters()
+            disk = read_file(workdir)
+        except Exception as e:   # noqa
+            ctx.finding(f'runtime-reload:raises:{type(e).__name__}', case, repr(e)[:300])
+            break
+        tag = 'hardware-refuses-writes' if refuses else 'hardware-ready'
+        if lost:
+            ctx.finding(f'runtime-reload:stored-value-not-restored:{tag}', case, f'{lost!r} after loadParameters()')
+        elif disk != ('ok', want_file):
+            ctx.finding(f'runtime-reload:snapshot-lost:{tag}', case, f'{disk!r} vs {want_file!r}'[:400])
+        else:
+            ctx.ok('runtime-reload')
     # ---- (3)/(4) reload: stored values win over defaults, configured values over stored ones
     m3 = new_module(cls, spec, workdir, None)
     for p in spec['params']:
